@@ -105,6 +105,15 @@ def _run_case(case):
     elif e.value != want:
         F('der', 'bytes', 'der.encode=%s reference=%s' % (e.value.hex()[:160], want.hex()[:160]),
           obs={'lib': e.value, 'ref': want})
+    # (the canonical encoders pin their length form and segment size: a caller who hands one option dict to all three codecs
+    # still gets DER from the DER encoder)
+    if e.ok and (not defMode or chunk):
+        e_opt = lib.encode('DER', obj, defMode=defMode, maxChunkSize=chunk)
+        if not e_opt.ok:
+            F('der', 'raises', 'with defMode=%s maxChunkSize=%s: %s' % (defMode, chunk, e_opt.brief()), e_opt.sig)
+        elif e_opt.value != e.value:
+            F('der-options', 'bytes', 'der.encode(v, defMode=%s, maxChunkSize=%s)=%s differs from der.encode(v)=%s' % (
+                defMode, chunk, e_opt.value.hex()[:120], e.value.hex()[:120]))
     # (b) BER / CER read back by the reference
     for codec, kw in (('BER', dict(defMode=defMode, maxChunkSize=chunk)), ('CER', {})):
         e = lib.encode(codec, obj, **kw)
